@@ -263,6 +263,57 @@ def _d5(chk, fb):
     chk.floor("D5", "countdown loops storing into member vectors", n, 1)
 
 
+def _mentions_method(f, n, depth=2):
+    for x in walk(n):
+        if x["k"] == "MemberExpr" and x["member"]["name"] == "method_":
+            return True
+        if is_call(x) and x["callee"].get("name") == "getMethod":
+            return True
+        if depth and x["k"] == "DeclRefExpr" and x["decl"].get("kind") == "local":
+            for d in f.all_nodes():
+                if d["k"] == "DeclStmt":
+                    for dd in d["decls"]:
+                        if dd["id"] == x["decl"]["id"] and dd.get("init") is not None and _mentions_method(f, dd["init"], depth - 1):
+                            return True
+    return False
+
+
+def _d6(chk, fb):
+    """the three codings define three different parameter formulas (D1 compares them per case label).  A theta value computed
+    from the probabilities on a path that never branches on method_ is therefore given to every coding alike"""
+    n = 0
+    for f in fb.concrete_fns():
+        if f.body is None or not f.relfile.endswith("Bpp/Numeric/Prob/Simplex.cpp") or not f.key.startswith(S + "::"):
+            continue
+        cfg = None
+        for c in f.all_nodes():
+            if not (c["k"] in ("CXXConstructExpr", "CXXTemporaryObjectExpr") and c["callee"].get("cls") == "bpp::Parameter" and len(f.args(c)) >= 2):
+                continue
+            val = f.args(c)[1]
+            if not any(x["k"] in ("DeclRefExpr", "MemberExpr") or is_call(x) for x in walk(val)):
+                continue        # a literal start value
+            if cfg is None:
+                cfg = f.cfg
+                testers = set()
+                for b in cfg.blocks.values():
+                    tc = f.nodes.get(b.get("termcond")) if b.get("termcond") is not None else None
+                    if tc is not None and len(b["succ"]) >= 2 and _mentions_method(f, tc):
+                        testers.add(b["id"])
+            blk = cfg.stmt_block(c)
+            if blk is None:
+                chk.unknown("D6", f.key, "coding-dependent-theta", f.loc(c), "parameter creation not located in the flow graph")
+                continue
+            n += 1
+            if blk not in testers and e1.path_exists(cfg, cfg.entry, blk, avoid_blocks=testers):
+                chk.refuted("D6", f.key, "coding-dependent-theta", f.loc(c),
+                            "the parameter value '%s' is computed from the probabilities on a path that never tests method_: the same formula is stored for all three codings, "
+                            "whose constructor and fireParameterChanged definitions differ" % render(val),
+                            witness={"input": "a non-uniform probability vector under a coding whose own formula differs from this one"})
+            else:
+                chk.proved("D6", f.key, "coding-dependent-theta", f.loc(c), "every path to this parameter value branches on method_ first")
+    chk.floor("D6", "parameter values computed from probabilities", n, 7)
+
+
 def run(chk, fb, tier):
     chk.rule("D1", "per coding method, constructor(probas) and setFrequencies(probas) compute the same parameter formulas (clone agreement under renaming)")
     chk.rule("D2", "setFrequencies indexes its argument with dim_-derived bounds only under a dominating test probas.size() == dim_")
@@ -274,6 +325,8 @@ def run(chk, fb, tier):
     _d4(chk, fb)
     chk.rule("D5", "a countdown loop 'i = N; i > 0; --i' that stores into a member vector stores at [i - 1] (or element 0 is written elsewhere)")
     _d5(chk, fb)
+    chk.rule("D6", "a parameter value computed from the probabilities is reached only through a branch on method_ (the codings' formulas differ)")
+    _d6(chk, fb)
     from . import argswap as _argswap
     chk.rule("DA", "argument/parameter name agreement at forwarding calls in the anchored units (same-typed parameters must not be swapped)")
     _af = ('src/Bpp/Numeric/Prob/Simplex.h', 'src/Bpp/Numeric/Prob/Simplex.cpp', 'src/Bpp/Numeric/Hmm/FullHmmTransitionMatrix.cpp', 'src/Bpp/Numeric/Prob/MixtureOfDiscreteDistributions.cpp')
